@@ -169,6 +169,12 @@ fn scenario_full(out: &mut Out, networks: usize, acts: &[Act], nontrivial: bool,
 /// command sender: `burst` drive commands and a final stop-all arrive in one read while network 0's handler is held.
 /// Emitted in the ordinary `bus` format: the sends are the frames, in order (ids = the drive values, 9999 = stop-all).
 pub fn via_session(out: &mut Out, networks: usize, burst: usize) {
+    via_session_sig(out, networks, burst, 0)
+}
+
+/// `signals`: that many signals are published to the session before it first runs (more than the signal queue holds: the
+/// session's subscriber has been overrun when it starts reading its client's frames - it skips, it does not hang up)
+pub fn via_session_sig(out: &mut Out, networks: usize, burst: usize, signals: usize) {
     let rt = tokio::runtime::Builder::new_current_thread().enable_all().build().unwrap();
     let shared = Arc::new(Shared {
         handled: Mutex::new(vec![vec![]; networks]),
@@ -200,6 +206,9 @@ pub fn via_session(out: &mut Out, networks: usize, burst: usize) {
         toks.push("s:9999".to_string());
         let (_sig_tx, sig_rx) = tokio::sync::broadcast::channel::<Object>(16);
         let session = tokio::spawn(glonax::service::UnixServer::verif_client_session(crate::sess::Transport::preloaded(bytes), tx.clone(), sig_rx));
+        for k in 0..signals {
+            let _ = _sig_tx.send(Object::Engine(Engine { driver_demand: 0, actual_engine: 0, rpm: k as u16, state: EngineState::Request }));
+        }
         settle().await;
         settle().await;
         // what each network has taken so far, then everything is released
@@ -301,6 +310,10 @@ pub fn run(out: &mut Out, tier: &str, rng: &mut Rng) {
     let thorough = tier == "thorough";
     for clients in [1usize, 2, 3, 5] {
         via_server(out, clients);
+    }
+    // a client whose session has been overrun by published signals is still a producer: all its commands are delivered
+    for (burst, signals) in [(3usize, 17usize), (8, 17), (8, 40), (12, 16), (12, 100)] {
+        via_session_sig(out, 1, burst, signals);
     }
     out.rule = "the real Runtime::schedule_net_service command task(s) (1..3 networks) fed by the real CommandSender obtained through a scheduled producer service; handlers are held back by permits so that producers outrun them: bursts of 1..64 (quick) / 1..200 (thorough) commands sent while a handler is blocked, released at scripted points, interleaved with further sends; random schedules. Observed: the ordered list of commands each network's on_command received. Non-trivial = some burst exceeds the queue capacity of 16".into();
     let max_burst = if thorough { 200 } else { 64 };
